@@ -123,7 +123,35 @@ class NarrowImpl(ClassImpl):
         return S().Quaternion(q.astype(self.dtype) if fits else q)     # (intermediate results that do not fit stay as they are)
 
 
-IMPLS = {'base': BaseImpl(), 'class': ClassImpl(), 'class:int32': NarrowImpl(np.int32), 'class:int16': NarrowImpl(np.int16), 'class:float32': NarrowImpl(np.float32), 'class:int8': NarrowImpl(np.int8)}
+class ObjectImpl(ClassImpl):
+    """the identities evaluated on library objects that are kept between the steps (the product object is conjugated,
+    raised to a power, multiplied again), with operands of unit length entering as UnitQuaternion objects: mixed-class chains"""
+    name = 'class:objects'
+
+    def Q(self, q):
+        sm = S()
+        if isinstance(q, sm.Quaternion):
+            return q
+        q = np.asarray(q, dtype=np.float64)
+        if abs(float(np.linalg.norm(q)) - 1) < 1e-14:
+            return sm.UnitQuaternion(q)
+        return sm.Quaternion(q)
+
+    def mul(self, p, q):
+        return self.Q(p) * self.Q(q)
+
+    def add(self, p, q):
+        return self.Q(p) + self.Q(q)
+
+    def conj(self, q):
+        return self.Q(q).conj()
+
+    def pow(self, q, n):
+        return self.Q(q) ** n
+
+
+OBJ_IDENT = ['assoc', 'distrib_left', 'distrib_right', 'norm_mult', 'conj_reverse', 'q_conjq', 'pow', 'matrix_form', 'inner_dot', 'pow_prod', 'neg_prod']
+IMPLS = {'base': BaseImpl(), 'class': ClassImpl(), 'class:objects': ObjectImpl(), 'class:int32': NarrowImpl(np.int32), 'class:int16': NarrowImpl(np.int16), 'class:float32': NarrowImpl(np.float32), 'class:int8': NarrowImpl(np.int8)}
 NARROW_IDENT = ['assoc', 'norm_mult', 'conj_reverse', 'q_conjq', 'matrix_form', 'inner_dot']      # (no + / -: NumPy adds in the narrow type)
 IDENT = ['assoc', 'distrib_left', 'distrib_right', 'norm_mult', 'conj_reverse', 'q_conjq', 'pow', 'matrix_form', 'inner_dot',
          'dot_rate', 'dotb_rate', 'vvmul', 'sub_add']
@@ -187,6 +215,21 @@ def run_num(ctx, p):
             want = 0.5 * (impl.mul(pw, a) if ident == 'dot_rate' else impl.mul(a, pw))
             sc = na * nrm(w)
             refv = LD(0.5) * (ref.qmul(pw, a) if ident == 'dot_rate' else ref.qmul(a, pw))
+        elif ident == 'pow_prod':
+            # an integer power of a product object: (ab)^n is the n-fold product (ab)(ab)...
+            ab = impl.mul(a, b)
+            got, want = impl.pow(ab, n), np.r_[1.0, 0, 0, 0]
+            for _ in range(abs(n)):
+                want = impl.mul(want, ab)
+            if n < 0:
+                want = impl.conj(want)
+            sc = (na * nb) ** abs(n) if n != 0 else 1.0
+            refv = pow_ref(ref.qmul(a, b), n)
+        elif ident == 'neg_prod':
+            # (ab) conj(ab) = |ab|^2
+            ab = impl.mul(a, b)
+            got, want, sc = impl.mul(ab, impl.conj(ab)), np.r_[(na * nb) ** 2, 0, 0, 0], (na * nb) ** 2
+            refv = np.r_[(LD(na) * LD(nb)) ** 2, 0, 0, 0]
         elif ident == 'sub_add':
             if impl.name == 'class':
                 Q = impl.Q
@@ -199,6 +242,7 @@ def run_num(ctx, p):
     except Exception as e:
         ctx.bad('numeric', dict(sig, kind='raised', exc=type(e).__name__), '%s (%s) raised %r for a=%s b=%s c=%s n=%s' % (ident, impl.name, e, a, b, c, n))
         return
+    got, want = getattr(got, 'A', got), getattr(want, 'A', want)
     d1 = rel(got, want, sc)
     d2 = rel(got, np.array(refv, dtype=np.float64), sc)
     d = max(d1, d2)
@@ -272,7 +316,7 @@ def run_explog(ctx, p):
     nv = np.sqrt(np.sum(v * v))
     if which == 'exp_log':
         nq = np.sqrt(np.sum(LD(q) ** 2))
-        want_mid = np.r_[np.log(nq), v / nv * np.arccos(np.clip(LD(q[0]) / nq, -1, 1))]
+        want_mid = np.r_[np.log(nq), v / nv * np.arctan2(nv, LD(q[0]))]      # (= acos(s / |q|), without its cancellation next to 1)
     else:
         want_mid = np.exp(LD(q[0])) * np.r_[np.cos(nv), v / nv * np.sin(nv)]
     dm = rel(mid.A, np.array(want_mid, dtype=np.float64), max(1.0, float(np.max(np.abs(want_mid)))))
@@ -468,6 +512,15 @@ def run(ctx):
             p['impl'] = 'class:int8'
             for k_ in 'abc':
                 p[k_] = np.round(gen.vec(rng, 4, 20, 127)).clip(-127, 127)
+        if p['impl'] == 'class' and ident in OBJ_IDENT and rng.random() < 0.3:
+            # objects kept between the steps; one or two of the operands of unit length (UnitQuaternion objects)
+            p['impl'] = 'class:objects'
+            p['ident'] = OBJ_IDENT[rng.integers(len(OBJ_IDENT))]
+            p['n'] = int(rng.integers(-3, 4))
+            for k_ in 'abc':
+                p[k_] = gen.vec(rng, 4, 1e-2, 1e2)
+                if rng.random() < 0.5:
+                    p[k_] = p[k_] / np.linalg.norm(p[k_])
         drive(RUNNERS, ctx, 'num', p)
         if ctx.ncases % 3001 == 1:
             ctx.sample(dict(case='num', **p))
@@ -480,6 +533,9 @@ def run(ctx):
             if rng.random() < 0.1:       # vector part far smaller than the scalar part (all components still within 1e-6 .. 1e6)
                 sc_ = gen.logu(rng, 1e1, 1e6)
                 q = np.r_[gen.sign(rng) * sc_, gen.unit_axis(rng) * gen.logu(rng, 1e-6, sc_ * 1e-6)]
+            if rng.random() < 0.06:      # "every q with non-zero vector part": a vector part below any threshold, down to 1e-18 of the scalar part
+                q = np.r_[gen.sign(rng) * gen.logu(rng, 1e-1, 1e1), gen.unit_axis(rng) * gen.logu(rng, 1e-18, 1e-12)]
+                r = 1.0
             if r < 0.06:       # scalar part exactly zero, of either sign (-1 * Pure(v) has s = -0.0)
                 q[0] = [0.0, -0.0][rng.integers(2)]
             elif r < 0.3:
@@ -492,6 +548,9 @@ def run(ctx):
             # (vector part over the whole stated range, down to 1e-6: acos of a number next to 1 has lost the angle)
             v = gen.unit_axis(rng) * (rng.uniform(1e-3, math.pi - 1e-3) if rng.random() < 0.7 else gen.logu(rng, 1e-6, 1e-3))
             q = np.r_[gen.sign(rng) * gen.logu(rng, 1e-3, 5.0), v]
+            if rng.random() < 0.08:     # a scalar part of large magnitude: exp(q) is a very short or very long quaternion (1e-130 .. 1e130)
+                q[0] = gen.sign(rng) * gen.logu(rng, 30.0, 300.0)
+                r = 1.0
             if r < 0.4:        # pure quaternion: exp is returned as a UnitQuaternion, whose log must invert it
                 q[0] = 0.0
         drive(RUNNERS, ctx, 'explog', dict(q=q, which=which, cls=cls))
